@@ -360,9 +360,10 @@ def run(chk):
                     orders.append((f'shuffled-{k}', o))
             jobs += b3_file(chk, bench, f'{label}@{bench}', data, orders, cache)
     # non-default process-wide simulation parameters (GGN evaluated on a few channels of the propagated comb): batches
-    # mixing channel counts (the spacing / channel-count variants of a base request)
+    # mixing channel counts (the spacing / channel-count variants of a base request), forced and automatic mode,
+    # uni- and bidirectional
     for bench in (['meshV2+island@ggn'] if chk.tier == 'quick' else ['meshV2+island@ggn', 'meshV2+island@ggnss']):
-        for label, reqs in pu.near_identical(bench)[:2 if chk.tier == 'quick' else 3]:
+        for label, reqs in pu.near_identical(bench):
             n = len(reqs)
             orders = [('original', list(range(n))), ('reversed', list(reversed(range(n))))]
             jobs += b3_file(chk, bench, f'{label}@{bench}', {'path-request': reqs}, orders, cache, api=False)
@@ -411,8 +412,6 @@ def run(chk):
                'refusal that depends on the ordering is')
     chk.assume('requests built through the API (PathRequest(**params) with the loader\'s resolved values, optional keys not '
                'given left to the class defaults) are the same requests: they are compared with the same solo runs')
-    chk.assume('GGN simulation parameters: bidirectional automatic-mode requests are left out (their reverse propagation '
-               'has no roll-off and raises TypeError alone as well as in a batch)')
     chk.assume('network settings are observed through json_io.network_to_json (one CRC per exported element)')
     chk.assume('bench equipment = shipped eqpt_config.json plus two library transceiver types (VerifDense 25 GHz comb, '
                'VerifHard unreachable OSNR thresholds); no gnpy code is modified')
@@ -503,6 +502,22 @@ def _mut_design_mutated():
     W.compute_path_with_disjunction = cpwd
 
 
+def _mut_rolloff_not_kept():
+    """the request does not keep the roll-off of the automatically selected mode (defect fixed by 2e4020fb): the reverse
+    propagation under a GGN model has none"""
+    import inspect
+    import textwrap
+    import gnpy.topology.request as R
+    import gnpy.tools.worker_utils as W
+    src = textwrap.dedent(inspect.getsource(R.compute_path_with_disjunction))
+    if src.count("pathreq.roll_off = mode['roll_off']") != 2:
+        raise Machinery('mutant rolloff_not_kept: pattern not found twice')
+    src = src.replace("pathreq.roll_off = mode['roll_off']", 'pass')
+    ns = {}
+    exec(compile(src, '<mutant compute_path_with_disjunction>', 'exec'), R.__dict__, ns)
+    R.compute_path_with_disjunction = W.compute_path_with_disjunction = ns['compute_path_with_disjunction']
+
+
 MUTANTS = {'no_deepcopy': _mut_no_deepcopy, 'shared_receiver': _mut_shared_receiver,
            'gain_written_back': _mut_gain_written_back, 'roadm_state_reused': _mut_roadm_state_reused,
-           'design_mutated': _mut_design_mutated}
+           'design_mutated': _mut_design_mutated, 'rolloff_not_kept': _mut_rolloff_not_kept}
